@@ -88,6 +88,22 @@ def run_case(case):
     for hev, v, ids, names in received:
         if [id(e) for e in v.keys()] != ids:
             raise Violation("C05.frozen", f"value of {hev.name} changed after delivery (was {names})", "C05.frozen")
+        # operands that completed after the condition was processed change nothing: they are still no part of the mapping
+        for l in kdsl.cond_leaves(hev):
+            if id(l.ev) in ids:
+                continue
+            try:
+                got = v[l.ev]
+            except KeyError:
+                got = KeyError
+            except BaseException as e:
+                raise crash("C05.frozen", e, f"looking up a late operand in the value of {hev.name}")
+            if got is not KeyError or l.ev in v or l.ev in v.todict():
+                raise Violation("C05.frozen", f"value of {hev.name} (delivered with {names}) now answers for operand {l.name}, "
+                                              f"which was not processed when the condition was: value[op] -> {got!r}, "
+                                              f"op in value -> {l.ev in v}", "C05.frozen/late-operand")
+            if l.processed_step is not None:
+                h.bump("late_operand_lookup")
     classes = set()
     conds = [x for x in h.hevs.values() if x.kind == "C" and x.tree is not None]
     by_step = {o.proc_step: o for o in h.occs if o.proc_step is not None}
@@ -124,6 +140,7 @@ def run_case(case):
     for k, name in [("same_instant_operands", "same-instant operands"), ("already_processed_operand", "already-processed operand"),
                     ("duplicate_operand", "same event twice in one tree"),
                     ("partial_value", "value with unprocessed leaves missing"),
+                    ("late_operand_lookup", "operand completed after the condition; looked up in the old value"),
                     ("operands given as a lazy iterable", "operands given as a lazy iterable"),
                     ("empty lazy iterable of operands", "empty lazy iterable of operands")]:
         if h.stats.get(k):
@@ -195,6 +212,7 @@ PROP = Property(
     facets=[Facet("trees", strategy, run_case, quick=2500, thorough=15000,
                   essential=["same-instant operands", "already-processed operand", "operand fails first", "empty list",
                              "operands given as a lazy iterable", "empty lazy iterable of operands",
+                             "operand completed after the condition; looked up in the old value",
                              "nested", "value with unprocessed leaves missing", "same event twice in one tree"]),
             Facet("foreign_env", foreign_strategy, run_foreign, quick=200, thorough=500)],
     assumptions=["instants, not steps, decide clause (a)", "an event may occur several times in one tree; it then counts once per "
